@@ -1,10 +1,12 @@
 package selftest
 
 import (
+	"bytes"
 	"encoding/binary"
 	"errors"
 	"fmt"
 	"sort"
+	"unicode"
 
 	"verif/verifrt"
 )
@@ -53,10 +55,62 @@ func Basic() {
 	verifrt.Reach("end")
 }
 
+// Index: a table as long as the index type is wide (a [256]T indexed by a
+// byte: never out of range), a shorter table (out of range possible and
+// explored as a panic), a negative signed index.
+func Index() {
+	var tab [256]uint8
+	tab[' '], tab['\n'] = 1, 1
+	c := verifrt.U8("c")
+	verifrt.Assume(c == ' ' || c == 'x')
+	if tab[c] == 1 {
+		verifrt.Assert(c == ' ', "table-hit")
+		verifrt.Reach("space")
+	} else {
+		verifrt.Assert(c == 'x', "table-miss")
+		verifrt.Reach("other")
+	}
+	short := []uint8{7, 8, 9}
+	k := verifrt.U8("k")
+	verifrt.Assume(k < 4)
+	func() {
+		defer func() {
+			if recover() != nil {
+				verifrt.Assert(k == 3, "panic-only-out-of-range")
+				verifrt.Reach("index-panic")
+			}
+		}()
+		verifrt.Assert(short[k] == 7+k, "short-table")
+	}()
+	j := int8(verifrt.U8("j"))
+	verifrt.Assume(j == -1 || j == 1)
+	func() {
+		defer func() {
+			if recover() != nil {
+				verifrt.Assert(j == -1, "panic-only-negative")
+				verifrt.Reach("negative-index-panic")
+			}
+		}()
+		verifrt.Assert(short[j] == 8, "signed-index")
+	}()
+}
+
 // Buggy has a violation the solver must find: x*2 == 14 && x > 3.
 func Buggy() {
 	x := verifrt.U32("x")
 	if x*2 == 14 {
 		verifrt.Assert(x <= 3, "bug")
 	}
+}
+
+// Unicode: package-level tables of a dependency (unicode.White_Space) are
+// initialised before use; bytes.TrimSpace on a non-ASCII byte takes that path.
+func Unicode() {
+	verifrt.Assert(unicode.IsSpace(rune(0x2003)) && !unicode.IsSpace('x') && unicode.IsSpace(rune(0x85)), "unicode-isspace")
+	b := []byte{0x80, ' '}
+	verifrt.Assert(len(bytes.TrimSpace(b)) == 1, "trimspace-non-ascii")
+	c := verifrt.U8("c")
+	verifrt.Assume(c == 0x80 || c == ' ')
+	t := bytes.TrimSpace([]byte{c})
+	verifrt.Assert((len(t) == 0) == (c == ' '), "trimspace-symbolic")
 }
